@@ -99,7 +99,7 @@ def _program_controls() -> int:
         G.g17_keyword_namesake(ctx, funcs)
         fired = {o.rule for o in ctx.findings()}
         bad = 0
-        for r in ("G2b", "G12", "G13", "G14", "G15", "G16", "G17"):
+        for r in ("G2b", "G18", "G13", "G14", "G15", "G16", "G17"):
             if r not in fired:
                 print(f"CONTROL-FAIL {r} did not fire on the known-bad control package")
                 bad += 1
